@@ -258,6 +258,29 @@ def gen_op(rng, f, state):
             return [R('vd2'), R('cf2'), R('cf2b')]
         return [R('vd2'), R('cfA'), R('cfB')]      # mismatched: FinError either way
     th = state.get('theme')
+    if th == 'fmt':
+        # process-wide print format x dates whose TEXT collides under some format (dd/mm <-> mm/dd, two-digit years a
+        # century apart): calendar / schedule results must depend neither on the format nor on earlier queries
+        r = rng.random()
+        if r < 0.3:
+            fm = rng.choice(FORMATS + ['UK_SHORT', 'US_SHORT', 'BLOOMBERG'] * 3)
+            state['fmt'] = fm
+            return OP(None, 'set_date_format', [E('DateFormatTypes', fm)], cls='<date>', tag='global')
+        if r < 0.4:
+            return OP(None, 'attr', [R('schedF'), 'adjusted_dts'], cls='Schedule', meth='<attr>', tag='sched-fmt')
+        if r < 0.45:
+            return OP(None, 'str', [D(rng.choice(state['coll']))], cls='Date', meth='__repr__', tag='print', fmt=state['fmt'])
+        cal = state['cals'][0]
+        dt = D(rng.choice(state['coll']))
+        j = rng.randrange(10)
+        if j < 5:
+            return OP(cal, 'is_business_day', [dt], cls='Calendar', tag='cal')
+        if j < 7:
+            return OP(cal, 'adjust', [dt, E('BusDayAdjustTypes', rng.choice(['FOLLOWING', 'MODIFIED_FOLLOWING', 'PRECEDING']))],
+                      cls='Calendar', tag='cal')
+        if j < 9:
+            return OP(cal, 'add_business_days', [dt, rng.choice([-2, -1, 1, 2, 3])], cls='Calendar', tag='cal')
+        return OP(cal, 'is_holiday', [dt], cls='Calendar', tag='cal')
     k = rng.randint(*THEMES[th]) if th and rng.random() < 0.85 else rng.randrange(100)
     if k < 6:
         fm = rng.choice(FORMATS)
@@ -566,9 +589,24 @@ def make_history(rng, maxlen=12):
     n = rng.randint(1, maxlen)
     state = {'fmt': 'UK_LONG'}
     if rng.random() < 0.35:
-        state['theme'] = rng.choice(sorted(THEMES))
+        state['theme'] = rng.choice(sorted(THEMES) + ['fmt', 'fmt'])
         if state['theme'] == 'cal':
             state['cals'] = rng.sample(['calUS', 'calUK', 'calTGT', 'calJP', 'calWE'], 2)
+        if state['theme'] == 'fmt':
+            y = facts['vd'][2]
+            a, b = rng.choice([(4, 7), (1, 5), (6, 1), (12, 10), (3, 10), (1, 2), (11, 12), (5, 8),
+                               (rng.randint(1, 12), rng.randint(1, 12)), (rng.randint(1, 12), rng.randint(1, 12))])
+            em = easter_monday(y)
+            gf = dplus(em, -3)
+            coll = [(a, b, y), (b, a, y), (a, b, y + 100), (b, a, y + 100)]
+            if rng.random() < 0.4:
+                coll += [em, (em[0], em[1], y + 100), gf, (gf[0], gf[1], y + 100)]
+            state['coll'] = coll
+            state['cals'] = [rng.choice(['calUS', 'calUK', 'calTGT'])]
+            caltype = {'calUS': 'UNITED_STATES', 'calUK': 'UNITED_KINGDOM', 'calTGT': 'TARGET'}[state['cals'][0]]
+            pool['schedF'] = new('Schedule', D((a, b, y - 1)), D((a, b, y)), E('FrequencyTypes', 'SEMI_ANNUAL'),
+                                 E('CalendarTypes', caltype), E('BusDayAdjustTypes', 'FOLLOWING'), E('DateGenRuleTypes', 'BACKWARD'))
+            n = rng.randint(6, maxlen)
     ops = []
     focus = rng.random() < 0.5 and rng.randrange(100)
     for _ in range(n):
